@@ -67,6 +67,16 @@ func checkRoundTrip(r2 *core.RuleRun, rel string, t types.Type, shardT types.Typ
 	}
 	switch u := t.Underlying().(type) {
 	case *types.Pointer:
+		// a JSON null at a pointer position loads as a nil pointer. The one such position of the format, the shard
+		// pointers, is tested by GetCache before use (R11.4: nil shards are skipped); any other pointer in the
+		// persisted types is a value the file can make nil and the lookup path dereferences without a test
+		if shardT == nil || !types.Identical(u.Elem(), shardT) {
+			if pos := unguardedDerefs(r2.Prog(), rel, t); len(pos) > 0 {
+				r2.Fail(rel+":"+path+":pointer", pos[0], "the persisted type has a pointer ("+short(t.String())+") at "+path+": a null there in a damaged or hand-edited cache file loads as a nil pointer, and "+r2.Prog().Pos(pos[0])+" dereferences a value of that type read from a map or slice without testing it")
+			} else {
+				r2.OK(rel+":"+path+":pointer", token.NoPos, "pointer position; every dereference of a loaded value is nil-tested")
+			}
+		}
 		checkRoundTrip(r2, rel, u.Elem(), shardT, seen, path)
 	case *types.Slice:
 		checkRoundTrip(r2, rel, u.Elem(), shardT, seen, path+"[]")
@@ -667,4 +677,92 @@ func numericVerbsOnly(f string) bool {
 		}
 	}
 	return true
+}
+
+// unguardedDerefs: in package rel, dereferences of a value of pointer type pt that was read out of a map, slice or
+// array (lookup, range, index) and is not known to be non-nil at the dereference (no dominating `v != nil` branch).
+func unguardedDerefs(prog *core.Program, rel string, pt types.Type) []token.Pos {
+	var out []token.Pos
+	for _, fn := range prog.RepoFuncs() {
+		if core.PkgRel(fn) != rel {
+			continue
+		}
+		allInstrs(fn, func(ins ssa.Instruction) {
+			v, ok := ins.(ssa.Value)
+			if !ok || v.Type() == nil {
+				return
+			}
+			if _, isPtr := v.Type().(*types.Pointer); !isPtr || !types.Identical(v.Type(), pt) {
+				return
+			}
+			loaded := false
+			switch x := v.(type) {
+			case *ssa.Lookup:
+				loaded = !x.CommaOk
+			case *ssa.Extract:
+				switch x.Tuple.(type) {
+				case *ssa.Lookup, *ssa.Next:
+					loaded = true
+				}
+			case *ssa.UnOp:
+				if x.Op == token.MUL {
+					if _, isIdx := x.X.(*ssa.IndexAddr); isIdx {
+						loaded = true
+					}
+				}
+			case *ssa.Index:
+				loaded = true
+			}
+			if !loaded {
+				return
+			}
+			for _, r := range referrers(v) {
+				deref := false
+				switch y := r.(type) {
+				case *ssa.FieldAddr:
+					deref = y.X == v
+				case *ssa.UnOp:
+					deref = y.Op == token.MUL && y.X == v
+				case ssa.CallInstruction:
+					if f := y.Common().StaticCallee(); f != nil && f.Signature.Recv() != nil && len(y.Common().Args) > 0 && y.Common().Args[0] == v {
+						deref = true // a method on the nil pointer dereferences it sooner or later
+					}
+				}
+				if !deref {
+					continue
+				}
+				guarded := false
+				for _, r2 := range referrers(v) {
+					b, ok := r2.(*ssa.BinOp)
+					if !ok || (b.Op != token.NEQ && b.Op != token.EQL) {
+						continue
+					}
+					other := b.Y
+					if other == v {
+						other = b.X
+					}
+					if c, isC := other.(*ssa.Const); !isC || !c.IsNil() {
+						continue
+					}
+					for _, r3 := range referrers(b) {
+						ifi, ok := r3.(*ssa.If)
+						if !ok {
+							continue
+						}
+						nonNil := ifi.Block().Succs[0]
+						if b.Op == token.EQL {
+							nonNil = ifi.Block().Succs[1]
+						}
+						if len(nonNil.Preds) == 1 && nonNil.Dominates(r.Block()) {
+							guarded = true
+						}
+					}
+				}
+				if !guarded {
+					out = append(out, r.Pos())
+				}
+			}
+		})
+	}
+	return out
 }
